@@ -65,6 +65,9 @@ type Options struct {
 	// (World.Topic), so that announcements can arrive through the receiver's
 	// pubsub watcher goroutine. Implies Announce.
 	Pubsub bool
+	// Resend (with Pubsub): the receiver republishes direct announcements on
+	// the topic (announce.WithResend(true)).
+	Resend bool
 }
 
 // New builds the world in free-running mode: publishers with chains, the
@@ -107,7 +110,7 @@ func New(e *sched.Exec, o Options) *World {
 			// when they wake: let virtual time pass
 			time.Sleep(30 * time.Minute)
 		}
-		opts = append(opts, dagsync.RecvAnnounce("", announce.WithTopic(topic), announce.WithAllowPeer(allow)))
+		opts = append(opts, dagsync.RecvAnnounce("", announce.WithTopic(topic), announce.WithAllowPeer(allow), announce.WithResend(o.Resend)))
 	} else if o.Announce {
 		opts = append(opts, dagsync.RecvAnnounce("", announce.WithAllowPeer(allow)))
 	}
